@@ -109,6 +109,7 @@ class TlcResult:
         self.wall = 0.0
         self.violated = None  # name of violated invariant / property
         self.error = None
+        self.errctx = ""
         self.lines = []
 
 
@@ -173,6 +174,12 @@ def tlc(module, cfg, files=None, workers=None, timeout=600, simulate=None, seed=
         r.error = mm.group(1) if mm else "error"
     elif "java.lang.OutOfMemoryError" in r.out:
         r.error = "oom"
+    if r.error and r.error != "timeout":
+        # the text around the first error (the tail of a long run is other workers' output)
+        i = r.out.find("Error:")
+        r.errctx = r.out[max(0, i - 1500):i + 2500] if i >= 0 else r.out[-3000:]
+        if os.environ.get("VERIF_KEEP"):
+            open(os.path.join(wd, "tlc.out"), "w").write(r.out)
     return r
 
 
